@@ -10,7 +10,8 @@
    [rows_ok] : no NaN among the float fields (the stated hypothesis on sort keys). *)
 From Coq Require Import List ZArith NArith Bool Sorted Permutation.
 From Storage Require Import Base.Bytes Query.Compare Query.CompareProofs Query.Paging Query.PagingProofs
-  Query.ScanUnique Query.ScanUniqueProofs Query.ScanSort Query.ScanSortProofs.
+  Query.ScanUnique Query.ScanUniqueProofs Query.ScanSort Query.ScanSortProofs
+  Query.ChildScan Query.ChildScanProofs.
 Import ListNotations.
 Open Scope Z_scope.
 
@@ -140,3 +141,80 @@ Theorem skip_beyond_count : forall (matches : row -> bool) (fs : list sort_field
   iterate_ids matches p rows = [].
 Proof. exact skip_beyond_count_lemma. Qed.
 Print Assumptions skip_beyond_count.
+
+(* ---- queries through child stores (Query/ChildScan.v) ---------------------------------------------
+   A child store scans the entities bucket of its root store; [sv] says whether the queried store is
+   a child store and whether it is extended, [present] is IsEntityPresent.  The entities of the store
+   are [store_rows sv present rows]: every row for a root store and for an extended child store, the
+   rows that have the child's bucket otherwise. *)
+Theorem child_store_entities : forall (present : row -> bool) (rows : list row),
+  store_rows root_view present rows = rows /\
+  store_rows {| sv_child := true; sv_extended := true |} present rows = rows /\
+  store_rows {| sv_child := true; sv_extended := false |} present rows = filter present rows.
+Proof. exact store_rows_cases_lemma. Qed.
+Print Assumptions child_store_entities.
+
+(* QueryIds / QueryWithCursorC (whichever strategy NewScanner selects), the sorting scan on its own
+   and the paged iteration of ANY store of a parent / child chain answer exactly as specified over the
+   entities of that store: rows of the parent that are not part of the store are neither returned,
+   nor counted, nor do they take a place in the bounded result tree *)
+Theorem child_store_query_exact : forall (sv : store_view) (present matches : row -> bool)
+    (fs : list sort_field) (p : paging) (rows : list row),
+  wf_paging p -> id_sorted rows -> rows_ok rows -> Z.of_nat (length rows) <= max_int64 ->
+  child_query_ids sv present matches fs p rows = query_spec fs p matches (store_rows sv present rows) /\
+  child_scan_sorting sv present matches fs p rows = query_spec fs p matches (store_rows sv present rows) /\
+  child_iterate_ids sv present matches p rows = map r_id (page p (filter matches (store_rows sv present rows))).
+Proof. exact child_store_exact_lemma. Qed.
+Print Assumptions child_store_query_exact.
+
+(* the count is the number of matching entities OF THE QUERIED STORE, for every sort specification
+   (= every scan strategy) and every skip / limit *)
+Theorem child_store_count : forall (sv : store_view) (present matches : row -> bool)
+    (fs : list sort_field) (p p' : paging) (rows : list row),
+  wf_paging p -> wf_paging p' -> id_sorted rows -> rows_ok rows -> Z.of_nat (length rows) <= max_int64 ->
+  snd (child_query_ids sv present matches fs p rows)
+    = Z.of_nat (length (filter matches (store_rows sv present rows))) /\
+  snd (child_query_ids sv present matches fs p rows) = snd (child_query_ids sv present matches fs p' rows).
+Proof. exact child_count_lemma. Qed.
+Print Assumptions child_store_count.
+
+Theorem child_store_scanners_agree : forall (sv : store_view) (present matches : row -> bool)
+    (fs : list sort_field) (p : paging) (forward : bool) (rows : list row),
+  (if forward then fs = [] \/ id_first true fs else id_first false fs) ->
+  wf_paging p -> id_sorted rows -> rows_ok rows -> Z.of_nat (length rows) <= max_int64 ->
+  child_scan_unique sv present matches p forward rows = child_scan_sorting sv present matches fs p rows.
+Proof. exact child_strategies_agree_lemma. Qed.
+Print Assumptions child_store_scanners_agree.
+
+(* ---- re-execution of a compiled query --------------------------------------------------------------
+   [run_prog] threads the query object through the executions the way the code does (every execution
+   leaves the object with the skip / limit that setPaging wrote back); [pure_prog] evaluates every
+   execution on the query as the caller's own mutators (SetSkip, SetLimit, AdoptSortFields,
+   SetPredicate) left it.  They are the same, without any hypothesis: the answer of a compiled query
+   depends on the query text, the caller's mutators and the state only - not on how often, through
+   which entry point (QueryIdsC, QueryWithCursorC, IterateIds, the objectz twin) or in which
+   interleaving it has been run before *)
+Theorem compiled_query_rerun_pure : forall (sv : store_view) (present : row -> bool) (rows : list row)
+    (q : cquery) (ops : list qop),
+  run_prog sv present rows q ops = pure_prog sv present rows q ops.
+Proof. exact rerun_pure_lemma. Qed.
+Print Assumptions compiled_query_rerun_pure.
+
+(* one execution returns the query meaning the same: predicate and sort fields untouched, the
+   effective (skip, limit) - what setPaging hands to the scanner - unchanged *)
+Theorem execution_preserves_query_meaning : forall (sv : store_view) (present : row -> bool)
+    (rows : list row) (e : entry) (q : cquery),
+  cq_match (snd (exec sv present rows e q)) = cq_match q /\
+  cq_sort (snd (exec sv present rows e q)) = cq_sort q /\
+  effective_paging (snd (exec sv present rows e q)) = effective_paging q.
+Proof. exact exec_qeq. Qed.
+Print Assumptions execution_preserves_query_meaning.
+
+(* ... and every answer of such a program is the specified answer of the query as the mutators left it *)
+Theorem compiled_query_rerun_exact : forall (sv : store_view) (present : row -> bool) (rows : list row),
+  id_sorted rows -> rows_ok rows -> Z.of_nat (length rows) <= max_int64 ->
+  forall (q : cquery) (ops : list qop),
+  Forall qop_wf ops -> wf_paging (cq_paging q) ->
+  run_prog sv present rows q ops = spec_prog sv present rows q ops.
+Proof. exact rerun_exact_lemma. Qed.
+Print Assumptions compiled_query_rerun_exact.
